@@ -315,3 +315,57 @@ Proof.
     pose proof (forall_bytes (route_names_ok_gen sr names) Hty b Hb) as Hn. unfold route_names_ok_gen in Hn.
     rewrite R in Hn. exact Hn.
 Qed.
+
+(* ---------------------------------------------------------------- whole responses *)
+Definition arm_sim (a b : option mbody) : bool :=
+  match a, b with
+  | Some MB_Ser, Some MB_Ser => true
+  | Some (MB_Other _), Some (MB_Other _) => true
+  | _, _ => false
+  end.
+
+Lemma arm_sim_cases : forall a b, arm_sim a b = true ->
+  (a = Some MB_Ser /\ b = Some MB_Ser) \/ (exists s s', a = Some (MB_Other s) /\ b = Some (MB_Other s')).
+Proof.
+  intros [[]|] b H; cbn [arm_sim] in H; try discriminate; destruct b as [[]|]; try discriminate.
+  - left. split; reflexivity.
+  - right. eexists; eexists; split; reflexivity.
+Qed.
+
+Definition tys_eqb (a b : list ty) : bool := list_eqb ty_eqb a b.
+
+Definition response_bundle (T T' : tables) (e e' : env) (names : list string) : bool :=
+  closed names e && agree names e e'
+  && forallb (fun p => arm_sim (match_var (t_resp_arms T) (fst p)) (match_var (t_resp_arms T') (fst p))
+                       && match assoc (fst p) (t_resp_variants T') with Some tys => tys_eqb (snd p) tys | None => false end
+                       && names_in names (flat_map ty_names (snd p)))
+             (t_resp_variants T)
+  && Z.eqb (err_code T "Other") (err_code T' "Other").
+
+Lemma assoc_in_list {A} : forall k (l : list (string * A)) v, assoc k l = Some v -> In (k, v) l.
+Proof.
+  intros k l. induction l as [|[k' v'] l IH]; intros v H; [discriminate|]. cbn [assoc] in H.
+  destruct (String.eqb k k') eqn:E.
+  - apply String.eqb_eq in E. subst. injection H as <-. left. reflexivity.
+  - right. apply IH. exact H.
+Qed.
+
+Theorem response_models_agree : forall (T T' : tables) (e e' : env) names,
+  response_bundle T T' e e' names = true ->
+  forall variant tys, assoc variant (t_resp_variants T) = Some tys ->
+  forall payload n prior,
+    response_serialize T e variant payload n prior = response_serialize T' e' variant payload n prior.
+Proof.
+  intros T T' e e' names B variant tys Hv payload n prior. unfold response_bundle in B.
+  apply andb_prop in B. destruct B as [B Herr]. apply andb_prop in B. destruct B as [B Hall].
+  apply andb_prop in B. destruct B as [C A]. apply Z.eqb_eq in Herr.
+  rewrite forallb_forall in Hall. specialize (Hall (variant, tys) (assoc_in_list _ _ _ Hv)). cbn [fst snd] in Hall.
+  apply andb_prop in Hall. destruct Hall as [Hall Hn]. apply andb_prop in Hall. destruct Hall as [Hsim Hty].
+  unfold response_serialize. destruct (n <=? 0); [reflexivity|]. rewrite Hv.
+  destruct (assoc variant (t_resp_variants T')) as [tys'|]; [|discriminate].
+  apply (list_eqb_eq _ ty_eqb_eq) in Hty. subst tys'. rewrite <- Herr.
+  destruct (arm_sim_cases _ _ Hsim) as [[-> ->]|[s1 [s2 [-> ->]]]]; [|reflexivity].
+  destruct tys as [|t [|t2 tys]]; [reflexivity| |reflexivity].
+  cbn [flat_map] in Hn. rewrite app_nil_r in Hn.
+  rewrite (encode_agree names e e' t payload C A Hn). reflexivity.
+Qed.
